@@ -4,6 +4,6 @@ cd "$(dirname "$0")/.."
 for p in C04 C05 C06 C07 C09 C10 C11 C12 C14 C15 C16 C17 C18; do
   out=$(bin/check $p --tier thorough --seed ${1:-0} 2>&1); rc=$?
   echo "$p rc=$rc $(echo "$out" | grep -E 'tier=' | head -1)"
-  if [ $rc -ne 0 ]; then echo "$out" | grep -E "VIOLATION|^   \{|HARNESS|Error|mismatch" | head -8; fi
+  if [ $rc -ne 0 ]; then echo "$out" | grep -E -A6 "VIOLATION|^   \{|HARNESS|Error|mismatch" | head -24; fi
 done
 echo THOROUGH DONE
